@@ -377,21 +377,21 @@ def _rescale_body_contract(tag, order, mode, with_mask=False):
             cl = calls[k]
             prove.with_hyp(ctx, inr, lambda cl=cl, what=what: ctx.oblige(
                 name % ('%s_sampled_on_the_centred_grid' % what),
-                S.and_(S.eq(cl['yy'].at((i, j)), want_y), S.eq(cl['xx'].at((i, j)), want_x))))
+                S.and_(S.eq(cl['yy'].at((i, j)), want_y), S.eq(cl['xx'].at((i, j)), want_x)), 'structure'))
         p, q = ints(ctx, 'p', 'q')
         inp = [p >= 0, p < S.z(n), q >= 0, q < S.z(m)]
         if with_mask:
             prove.with_hyp(ctx, inp, lambda: ctx.oblige(name % 'interpolated_mask_is_the_callers_mask',
-                                                        S.eq(calls[0]['input'].at((p, q)), env0['mask'].at((p, q)))))
+                                                        S.eq(calls[0]['input'].at((p, q)), env0['mask'].at((p, q))), 'structure'))
         else:
             prove.with_hyp(ctx, inp, lambda: ctx.oblige(name % 'interpolated_mask_is_the_support_of_the_image',
-                                                        S.eq(calls[0]['input'].at((p, q)), S.ite(S.ne(img.at((p, q)), 0), 1, 0))))
-        prove.with_hyp(ctx, inp, lambda: ctx.oblige(name % 'interpolated_image_is_the_input', S.eq(calls[1]['input'].at((p, q)), img.at((p, q)))))
+                                                        S.eq(calls[0]['input'].at((p, q)), S.ite(S.ne(img.at((p, q)), 0), 1, 0)), 'structure'))
+        prove.with_hyp(ctx, inp, lambda: ctx.oblige(name % 'interpolated_image_is_the_input', S.eq(calls[1]['input'].at((p, q)), img.at((p, q))), 'structure'))
         # result = interpolated image x interpolated support (values below machine epsilon cut to 0)
         mi = calls[0]['output'].at((i, j))
         eps = Fraction(1, 2 ** 52)
         want = S.mul(calls[1]['output'].at((i, j)), S.ite(S.lt(mi, eps), 0, mi))
-        prove.with_hyp(ctx, inr, lambda: ctx.oblige(name % 'interpolated_image_times_interpolated_support', S.eq(res.at((i, j)), want)))
+        prove.with_hyp(ctx, inr, lambda: ctx.oblige(name % 'interpolated_image_times_interpolated_support', S.eq(res.at((i, j)), want), 'structure'))
         # identity at scale 1 (given that the interpolant reproduces its knots)
         if not with_mask:
             prove.with_hyp(ctx, inr + [S.z(S.eq(s, 1))], lambda: ctx.oblige(name % 'identity_at_scale_1', S.eq(res.at((i, j)), img.at((i, j)))))
